@@ -426,6 +426,13 @@ def explore(c, tier):
     uniq.append(libgen.wide_library(sets["PyRows"], wrap_python=True, wrap_fortran=False, wrap_c=False))
     uniq.append(libgen.wide_library(sets["LuaRows"], wrap_lua=True, wrap_fortran=False))
     uniq.append(libgen.wide_library(F_CFI=True))
+    # every function of the wide member that has a parameter passed as int, as a function template instantiated
+    # for int and double (Templatize), with fortran_generic entries where a double / long parameter allows (Genericize)
+    for o_ in ({}, {"F_CFI": True}, {"wrap_python": True, "wrap_fortran": False, "wrap_c": False}):
+        tl = libgen.wide_library(sets["PyRows"] if o_.get("wrap_python") else None, **o_)
+        tl["funcs"] = [dict(f, tmpl=True, gen=bool({"double_v", "long_v"} & set(f["params"])))
+                       for f in tl["funcs"] if "int_v" in f["params"]]
+        uniq.append(libgen.without_cfi_conflict(tl))
     # declarations the documentation itself shows (docs/cwrapper.rst: vector_string_fill)
     doc = libgen.wide_library()
     doc["funcs"] = [{"kind": "plain", "result": "void", "params": ["vecstr_out"], "ndef": 0}]
